@@ -127,6 +127,7 @@ def process_spec(job):
   sdesc = G.describe(s)
   ctx.hist('spec_origin', origin); ctx.hist('spec_modes', mode_key(s)); ctx.hist('spec_points', G.count_points(s)); ctx.hist('spec_depth', G.depth(s))
   nontriv = has_multi(s)
+  ctx.hist('hypothesis:finite', fin); ctx.hist('hypothesis:nocustom', 'custom' not in mode_key(s))
   members = None
   L = None
   valid_sds = None
